@@ -142,6 +142,7 @@ fn stats(o: &mut Obs, g: &Gen<'_, '_>) {
     o.class_if(g.max_len >= 2, "container-len>=2");
     o.class_if(g.max_len >= 10_000, "container-len>=10^4");
     o.class_if(g.n_empty > 0, "has-empty-container");
+    o.class_if(g.n_wrapped > 0, "has-wrapped-vecdeque");
     o.class_if(g.n_points > 0, "has-curve-point");
 }
 
